@@ -289,6 +289,31 @@ def run(ctx):
     _shc.facade_forwards_parameters(ctx, r2, names={
         'update_cron_trigger', 'delete_cron_trigger',
         'get_next_cron_triggers'})
+    # who may write the schedule of a trigger: outside the DB layer only
+    # advance_cron_trigger (the compare-and-swap below) updates a cron
+    # trigger - an unconditional write elsewhere (e.g. "handing an
+    # occurrence back" after a failed start) moves next_execution_time
+    # backwards / the count up over another processor's advance
+    n_w = 0
+    for q, f in sorted(prog.funcs.items()):
+        if not f.module.startswith('mistral.') or '.tests.' in f.module or \
+                f.module.startswith('mistral.db.'):
+            continue
+        for c in own_nodes(f.node):
+            if isinstance(c, ast.Call) and U.call_name(c) in (
+                    'update_cron_trigger', 'create_or_update_cron_trigger'):
+                n_w += 1
+                r2.check(q == PER + '.advance_cron_trigger' and
+                         U.kwarg(c, 'query_filter') is not None,
+                         ctx.construct(f, extra='only the CAS updates a '
+                                       'trigger'),
+                         'a cron trigger is updated outside the '
+                         'compare-and-swap of advance_cron_trigger (or '
+                         'without a query_filter): the write does not '
+                         'depend on the schedule that was read',
+                         ctx.loc(f, c))
+    if n_w < 1:
+        raise AnalysisError('C17.R2: no update of a cron trigger found')
     ad = prog.func(PER + '.advance_cron_trigger')
     cfg = ctx.cfg(ad)
     up = U.calls_in(cfg, 'update_cron_trigger')
